@@ -11,8 +11,10 @@ CHECKS = {
         text='TLC checks TidsStrictlyIncrease and the history semantics exhaustively on small constants (all clock '
              'behaviours folded into Begin); conformance: behaviours of a larger configuration are replayed on the real '
              'storages, and after every API call every query of the bounded universe (loadBefore at each tid boundary, '
-             'load, loadSerial, history, iterator with data_txn, undoLog, lastTransaction, len) must equal the table '
-             'TLC printed for that state, including across close/reopen.',
+             'load, loadSerial, history, iterator with data_txn and with start / stop bounds, undoLog whole and in windows with a filter, '
+             'lastInvalidations, record_iternext, lastTransaction, len) must equal the table '
+             'TLC printed for that state, including across close/reopen; committer threads on each storage kind under the scheduler '
+             '(random and systematic single-preemption schedules) must leave the TLC-evaluated serial execution in finish order.',
         note='bounded model (small-scope); behaviours sampled by seeded TLC simulation; protocol assumption: a failed '
              'storage call is followed by tpc_abort',
         design='6/C04'),
@@ -38,8 +40,10 @@ CHECKS = {
              'must reopen to the unpacked or packed version (validated by TLC, known findings skipped and the rest re-validated); '
              'B: each write of the .pack file fails in turn: database unchanged and usable; C: real threads (packer, 1-2 '
              'committers, reader, second packer) under the scheduler: final storage in memory and after reopen equals '
-             'pack(serial history) as evaluated by TLC, readers only see committed revisions, second pack refused.',
-        note='schedules at lock-operation granularity, seeded; readers use current loads (snapshots not older than the pack time)',
+             'pack(serial history) as evaluated by TLC, readers only see committed revisions, second pack refused; systematic '
+             'single-preemption sweeps (each thread stopped after its k-th yield point while the others run to completion), with and '
+             'without a blob directory.',
+        note='schedules at lock-operation and file-I/O granularity, seeded random plus systematic sweeps; readers use current loads (snapshots not older than the pack time)',
         design='6/C08'),
     'C09': dict(
         technique='same ZFile/ZFileTrace specification; probes opening every quiescent directory state with every earlier saved '
@@ -59,8 +63,11 @@ CHECKS = {
              'conformance (code -> spec): seeded multi-connection programs run on the real DB/Connection/MVCCAdapter over '
              'FileStorage and MappingStorage, one real thread per connection under a cooperative scheduler switching at lock '
              'operations; every recorded step must be a ZMvcc step with the logged snapshot, cache projection, serials and '
-             'tids, and all invariants are evaluated in every state of every trace.',
-        note='lock-operation granularity; seeded random schedules (quick 600, thorough 20000); packer threads in C08',
+             'tids, and all invariants are evaluated in every state of every trace; programs include modify+abort, cache minimise in '
+             'mid-transaction, sync(), undo, readCurrent, savepoints, commits aborted after the vote; next to seeded random schedules, '
+             'systematic one- and two-level preemption sweeps (a thread stopped after its k-th yield point for every k) over '
+             'directed programs, with records larger than a read buffer and yield points before and after every raw file read.',
+        note='lock-operation and file-I/O granularity; seeded random schedules (quick 600, thorough 20000) plus systematic sweeps; packer threads in C08',
         design='6/C02'),
     'C03': dict(
         technique='TLA+ spec ZStorage (NoLostUpdate, StoredIsMerge) model-checked by TLC; conflict-heavy TLC behaviours '
